@@ -14,14 +14,19 @@ import (
 	"io"
 	"log"
 	"os"
+	"os/exec"
 	"runtime"
 	"runtime/debug"
 	"sort"
+	"strings"
+	"sync"
+	"sync/atomic"
 	"time"
 
 	NoKV "github.com/feichai0017/NoKV"
 	"github.com/feichai0017/NoKV/kv"
 	"github.com/feichai0017/NoKV/utils"
+	"github.com/feichai0017/NoKV/vfs"
 
 	"verif/harness/internal/eng"
 	"verif/harness/internal/vt"
@@ -32,6 +37,9 @@ type cfg struct {
 	MaxCount int64 `json:"maxcount"` // Options.MaxBatchCount (0: default)
 	MaxSize  int64 `json:"maxsize"`  // Options.MaxBatchSize (0: default)
 	HotLimit int32 `json:"hotlimit"` // Options.WriteHotKeyLimit (0: off)
+	Window   int   `json:"window"`   // shrink the oracle's read-mark window to this many indices (0: keep 65536)
+	Fault    bool  `json:"fault"`    // open through FaultFS (armed by the Concurrent op)
+	WaitMs   int   `json:"waitms"`   // Options.WriteBatchWait in ms (coalesces concurrent commits into one batch)
 }
 
 type op struct {
@@ -42,6 +50,9 @@ type op struct {
 	V    string `json:"v,omitempty"`
 	Len  int    `json:"len,omitempty"`
 	With bool   `json:"with,omitempty"` // CommitWith instead of Commit
+	Exp  bool   `json:"exp,omitempty"`  // Set: the entry's expiry lies in 2001 (reads as not found)
+	N    int    `json:"n,omitempty"`    // Concurrent: number of committing goroutines
+	Fail int    `json:"fail,omitempty"` // Concurrent: fail the Fail-th WAL file write after the start (0: none)
 	// maintenance
 	Kind  string `json:"kind,omitempty"`
 	Level int    `json:"level,omitempty"`
@@ -67,11 +78,29 @@ type runner struct {
 	txns   map[int]*NoKV.Txn
 	known  map[verKey]bool // stored (key, version) pairs seen in earlier dumps
 	closed bool
+	broken bool // an I/O fault was injected: the final Close may legitimately report it
 }
 
 func (r *runner) emit(ev vt.Ev) {
 	ev["s"] = r.SID
 	r.W.Emit(ev)
+	// the code under test may abort the process (panic in one of its own goroutines)
+	if f, ok := any(r.W).(interface{ Flush() error }); ok {
+		_ = f.Flush()
+	}
+}
+
+// ---- fault injection: the armed-th write to a WAL file fails once
+var faultArmed atomic.Int64
+
+func faultHook(op vfs.Op, path string) error {
+	if op != vfs.OpFileWrite || !strings.HasSuffix(path, ".wal") {
+		return nil
+	}
+	if faultArmed.Load() > 0 && faultArmed.Add(-1) == 0 {
+		return errors.New("verif: injected WAL write failure")
+	}
+	return nil
 }
 
 func (r *runner) opts() *NoKV.Options {
@@ -105,6 +134,12 @@ func (r *runner) opts() *NoKV.Options {
 	if c.MaxSize > 0 {
 		o.MaxBatchSize = c.MaxSize
 	}
+	if c.WaitMs > 0 {
+		o.WriteBatchWait = time.Duration(c.WaitMs) * time.Millisecond
+	}
+	if c.Fault {
+		o.FS = vfs.NewFaultFS(vfs.OSFS{}, faultHook)
+	}
 	return o
 }
 
@@ -121,6 +156,11 @@ func (r *runner) open() {
 	}
 	eng.SetGated(true)
 	r.closed = false
+	if n := r.sch.Cfg.Window; n > 0 {
+		// same code, small window: rebuildWindowLocked runs every n timestamps instead of every 65536
+		_, rm := r.DB.VerifOracleMarks()
+		rm.VerifSetWindow(1, n)
+	}
 }
 
 func (r *runner) close() error {
@@ -284,6 +324,71 @@ func (r *runner) fullDump() {
 	r.emit(vt.Ev{"e": "Dump", "ents": ents})
 }
 
+// concurrent: N goroutines each commit one blind-write transaction (a large and a small value) at the
+// same moment, so that the commit worker coalesces them into batches; optionally one WAL file write
+// fails. Free-running: only call/return is recorded (CCommit, in completion order) and afterwards every
+// stored version (CDump); the property layer judges every commit on its own.
+func (r *runner) concurrent(o op) {
+	type res struct {
+		i   int
+		err error
+		w   []map[string]any
+	}
+	n := o.N
+	out := make(chan res, n)
+	start := make(chan struct{})
+	var ready sync.WaitGroup
+	for i := 0; i < n; i++ {
+		ready.Add(1)
+		go func(i int) {
+			x := r.DB.NewTransaction(true)
+			big, small := fmt.Sprintf("cb%d", i), fmt.Sprintf("cs%d", i)
+			vb, vs := fmt.Sprintf("B%d_%d", r.SID, i), fmt.Sprintf("S%d_%d", r.SID, i)
+			w := []map[string]any{}
+			if err := x.Set([]byte(big), eng.Expand(vb, 270000)); err == nil {
+				w = append(w, map[string]any{"k": big, "v": vb})
+			}
+			if err := x.Set([]byte(small), eng.Expand(vs, 24)); err == nil {
+				w = append(w, map[string]any{"k": small, "v": vs})
+			}
+			ready.Done()
+			<-start
+			var err error
+			if i%2 == 1 {
+				ch := make(chan error, 1)
+				x.CommitWith(func(e error) { ch <- e })
+				err = <-ch
+			} else {
+				err = x.Commit()
+			}
+			out <- res{i, err, w}
+		}(i)
+	}
+	ready.Wait()
+	faultArmed.Store(int64(o.Fail))
+	close(start)
+	for i := 0; i < n; i++ {
+		x := <-out
+		r.emit(vt.Ev{"e": "CCommit", "t": 100 + x.i, "r": errClass(x.err), "err": errText(x.err), "w": x.w})
+	}
+	faultArmed.Store(0)
+	ents := []map[string]any{}
+	for _, s := range r.dump() {
+		v := "TOMB"
+		e, err := r.DB.GetVersionedEntry(kv.CFDefault, []byte(s.K), s.Ver)
+		switch {
+		case err != nil:
+			v = "ERR:" + err.Error()
+		case e.Meta&kv.BitDelete != 0:
+		default:
+			v = eng.Shrink(e.Value)
+		}
+		ents = append(ents, map[string]any{"k": s.K, "ver": int(s.Ver), "v": v})
+	}
+	r.emit(vt.Ev{"e": "CDump", "ents": ents})
+	r.broken = o.Fail > 0
+}
+
 func (r *runner) exec(o op) {
 	switch o.Op {
 	case "Begin":
@@ -313,8 +418,15 @@ func (r *runner) exec(o op) {
 		if n <= 0 {
 			n = 24
 		}
-		err := r.txn(o.T).Set([]byte(o.K), eng.Expand(o.V, n))
-		r.emit(vt.Ev{"e": "Set", "t": o.T, "k": o.K, "v": o.V, "ok": err == nil, "r": errClass(err), "err": errText(err)})
+		var err error
+		if o.Exp {
+			e := kv.NewEntry([]byte(o.K), eng.Expand(o.V, n))
+			e.ExpiresAt = 1000000000 // 2001: expired whatever the wall clock says
+			err = r.txn(o.T).SetEntry(e)
+		} else {
+			err = r.txn(o.T).Set([]byte(o.K), eng.Expand(o.V, n))
+		}
+		r.emit(vt.Ev{"e": "Set", "t": o.T, "k": o.K, "v": o.V, "exp": o.Exp, "ok": err == nil, "r": errClass(err), "err": errText(err)})
 	case "Del":
 		err := r.txn(o.T).Delete([]byte(o.K))
 		r.emit(vt.Ev{"e": "Del", "t": o.T, "k": o.K, "ok": err == nil, "r": errClass(err), "err": errText(err)})
@@ -337,6 +449,8 @@ func (r *runner) exec(o op) {
 		r.emit(vt.Ev{"e": "Maint", "what": "Reopen", "ok": err == nil, "err": errText(err)})
 	case "Dump":
 		r.fullDump()
+	case "Concurrent":
+		r.concurrent(o)
 	default: // Rotate | Flush | Compact: the engine family's maintenance actions
 		r.Exec(eng.Op{Op: o.Op, Kind: o.Kind, Level: o.Level, Base: o.Base})
 	}
@@ -397,30 +511,87 @@ func runSchedule(base string, s *schedule, w *vt.Writer) {
 		for _, x := range r.txns {
 			x.Discard()
 		}
-		if err := r.close(); err != nil {
+		if err := r.close(); err != nil && !r.broken {
 			r.emit(vt.Ev{"e": "Maint", "what": "Close", "ok": false, "err": err.Error()})
 		}
 	}
 }
 
+// The code under test may kill the process (a panic in one of its own goroutines cannot be recovered
+// here), so schedules run in a child process: when the child dies, the parent records a Crash event for
+// the schedule that was running and resumes with the next one.
 func main() {
 	in := flag.String("in", "", "schedules (ndjson)")
 	out := flag.String("out", "", "trace (ndjson)")
 	dir := flag.String("dir", os.TempDir(), "scratch directory")
+	child := flag.Bool("child", false, "run the schedules in this process")
+	from := flag.Int("from", 0, "first schedule index")
 	flag.Parse()
 	log.SetOutput(io.Discard)
 	scheds, err := vt.ReadNDJSON[schedule](*in)
 	if err != nil {
 		vt.Fatal("%v", err)
 	}
-	w, err := vt.NewWriter(*out)
+	if *child {
+		w, err := vt.NewWriter(*out)
+		if err != nil {
+			vt.Fatal("%v", err)
+		}
+		for i := *from; i < len(scheds); i++ {
+			_ = os.WriteFile(*out+".progress", []byte(fmt.Sprint(i)), 0o644)
+			runSchedule(*dir, &scheds[i], w)
+		}
+		if err := w.Close(); err != nil {
+			vt.Fatal("%v", err)
+		}
+		return
+	}
+	final, err := os.Create(*out)
 	if err != nil {
 		vt.Fatal("%v", err)
 	}
-	for i := range scheds {
-		runSchedule(*dir, &scheds[i], w)
-	}
-	if err := w.Close(); err != nil {
-		vt.Fatal("%v", err)
+	defer final.Close()
+	self, _ := os.Executable()
+	for i, part := 0, 0; i < len(scheds); part++ {
+		po := fmt.Sprintf("%s.part%d", *out, part)
+		cmd := exec.Command(self, "-child", "-from", fmt.Sprint(i), "-in", *in, "-out", po, "-dir", *dir)
+		var stderr strings.Builder
+		cmd.Stderr = &stderr
+		cmd.Stdout = &stderr
+		runErr := cmd.Run()
+		// copy the complete lines the child wrote
+		if b, err := os.ReadFile(po); err == nil {
+			if k := strings.LastIndexByte(string(b), '\n'); k >= 0 {
+				final.Write(b[:k+1])
+			}
+		}
+		os.Remove(po)
+		if runErr == nil {
+			break
+		}
+		code := -1
+		if ee, ok := runErr.(*exec.ExitError); ok {
+			code = ee.ExitCode()
+		}
+		if code == 3 { // vt.Fatal: the driver itself gave up
+			fmt.Fprint(os.Stderr, stderr.String())
+			os.Exit(3)
+		}
+		cur := i
+		if b, err := os.ReadFile(po + ".progress"); err == nil {
+			fmt.Sscan(string(b), &cur)
+		}
+		msg := stderr.String()
+		if k := strings.Index(msg, "panic:"); k >= 0 {
+			msg = msg[k:]
+		} else if k := strings.Index(msg, "fatal error:"); k >= 0 {
+			msg = msg[k:]
+		}
+		if len(msg) > 2500 {
+			msg = msg[:2500]
+		}
+		ev, _ := json.Marshal(vt.Ev{"e": "Crash", "s": scheds[cur].ID, "exit": code, "msg": msg})
+		final.Write(append(ev, '\n'))
+		i = cur + 1
 	}
 }
